@@ -194,6 +194,9 @@ def num_binop(ex, opn, l, r):
         return SymScalar(a / b, kind, pt if kl != 'int' or kr != 'int' else 'float')
     if opn == 'Pow':
         if isinstance(r, (int, float)) and r == 2:
+            if getattr(ex, 'square_uf', False):
+                from . import nparr
+                return SymScalar(nparr.SQ(a), kind, pt)
             return SymScalar(a * a, kind, pt)
         if isinstance(r, int) and 0 <= r <= 6:
             rr = z3.RealVal(1)
@@ -235,14 +238,14 @@ def sym_sqrt(ex, v):
         if r == int(r):
             return float(r)
         s = fresh_real('sqrt')
-        ex.pc.add(s * s == to_real(v))
+        ex.assume_ghost(s * s == to_real(v))
         ex.pc.add(s > 0)
         return SymScalar(s, 'float', 'np.float64')
     a = real_expr(v)
     s = fresh_real('sqrt')
     if not ex.pc.implied(a >= 0):
         raise OutOfSubset('sqrt of a possibly negative value')
-    ex.pc.add(s * s == a)
+    ex.assume_ghost(s * s == a)
     ex.pc.add(s >= 0)
     return SymScalar(s, 'float', 'np.float64')
 
@@ -1364,6 +1367,7 @@ def _tensor(ex, a, k):
     if isinstance(data, STensor) and data.lib == 'numpy':
         out = STensor(list(data.axes), dtype or data.dtype, data._val, ival=data.ival)
         out.ghost = dict(data.ghost)
+        out.ghost['copy_of'] = data
         return out
     if isinstance(data, STensor):
         out = T.from_data(data, dtype)
@@ -1745,10 +1749,11 @@ def _qr(ex, a, k):
         raise OutOfSubset('qr mode')
     m, n = A.shape
     kk = _min_size(ex, m, n)
-    Q = T.opaque_tensor([m, kk], A.dtype, 'Q')
-    R = T.opaque_tensor([kk, n], A.dtype, 'R')
-    Q.ghost.update({'orth_cols': True, 'qr_of': A, 'role': 'Q'})
-    R.ghost.update({'qr_of': A, 'role': 'R', 'Q': Q})
+    Q = T.opaque_with_axes([A.axes[0], T.Axis(kk)], A.dtype, 'Q')
+    R = T.opaque_with_axes([T.Axis(kk), A.axes[1]], A.dtype, 'R')
+    qrec = {'A': A, 'Q': Q, 'R': R, 'k': kk, 'id': Q.tid}
+    Q.ghost.update({'orth_cols': True, 'qr_of': A, 'qr': qrec, 'qrole': 'Q'})
+    R.ghost.update({'qr_of': A, 'qr': qrec, 'qrole': 'R'})
     if 'fro2' in A.ghost:
         R.ghost['fro2'] = A.ghost['fro2']
     ex.events.append(('qr', A, Q, R))
@@ -1771,19 +1776,105 @@ def _svd(ex, a, k):
         raise OutOfSubset('svd with full_matrices=True')
     m, n = A.shape
     kk = _min_size(ex, m, n)
-    U = T.opaque_tensor([m, kk], A.dtype, 'U')
+    U = T.opaque_with_axes([A.axes[0], T.Axis(kk)], A.dtype, 'U')
     sdt = A.dtype if A.dtype in T.FLOATS else ('float64' if A.dtype == 'complex128' else 'float32')
     S = T.opaque_tensor([kk], sdt, 'S')
-    V = T.opaque_tensor([kk, n], A.dtype, 'Vh')
+    V = T.opaque_with_axes([T.Axis(kk), A.axes[1]], A.dtype, 'Vh')
     U.ghost.update({'orth_cols': True, 'svd_of': A, 'role': 'U'})
     V.ghost.update({'orth_rows': True, 'svd_of': A, 'role': 'Vh'})
     S.ghost.update({'svals': True, 'svd_of': A, 'role': 'S'})
-    rec = {'A': A, 'U': U, 'S': S, 'V': V, 'k': kk}
+    from . import gauge
+    rec = gauge.new_svd_record(ex, A, U, S, V, kk)
     for t in (U, S, V):
         t.ghost['svd'] = rec
-    if 'fro2' in A.ghost:
-        S.ghost['fro2'] = A.ghost['fro2']
+    S.ghost['fro2'] = rec['fro2']
     ex.events.append(('svd', rec))
     for t in (U, S, V):
         T.derive(t, A)
     return (U, S, V)
+
+
+# ------------------------------------------------------------------------------------------------
+# symbolic-length numpy vectors (nparr.py)
+# ------------------------------------------------------------------------------------------------
+from . import nparr as NP   # noqa: E402
+
+_va2 = value_attr
+
+
+def value_attr(ex, obj, name):   # noqa: F811
+    if isinstance(obj, NP.NPArr):
+        if name == 'size':
+            return obj.n
+        if name == 'shape':
+            return (obj.n,)
+        raise OutOfSubset('numpy vector attribute %s' % name)
+    return _va2(ex, obj, name)
+
+
+_sub2 = subscript
+
+
+def subscript(ex, obj, idx):   # noqa: F811
+    if isinstance(obj, NP.NPArr):
+        return NP.getitem(ex, obj, idx)
+    return _sub2(ex, obj, idx)
+
+
+_bin2 = binop
+
+
+def binop(ex, opn, l, r):   # noqa: F811
+    if isinstance(l, NP.NPArr):
+        if opn == 'Pow' and isinstance(r, int) and r == 2:
+            return NP.square(l)
+        raise OutOfSubset('numpy vector arithmetic %s' % opn)
+    if isinstance(r, NP.NPArr):
+        raise OutOfSubset('numpy vector arithmetic %s' % opn)
+    return _bin2(ex, opn, l, r)
+
+
+_cmp2 = compare
+
+
+def compare(ex, opn, l, r):   # noqa: F811
+    if isinstance(l, NP.NPArr) and opn in ('Lt', 'LtE', 'Gt', 'GtE') and is_number(r):
+        return NP.compare(l, opn, real_expr(r))
+    if isinstance(l, NP.NPArr) or isinstance(r, NP.NPArr):
+        raise OutOfSubset('numpy vector comparison')
+    return _cmp2(ex, opn, l, r)
+
+
+@ext('numpy.linalg.norm')
+def _np_norm(ex, a, k):
+    v = a[0]
+    if isinstance(v, NP.NPArr):
+        return NP.norm_is_zero_facts(ex, v)
+    if isinstance(v, STensor):
+        t = T.fro_norm(v)
+        return SymScalar(_scalar_of(t), 'float', 'np.float64')
+    raise OutOfSubset('np.linalg.norm of %s' % type(v).__name__)
+
+
+@ext('numpy.abs')
+def _np_abs(ex, a, k):
+    v = a[0]
+    if isinstance(v, NP.NPArr):
+        return NP.np_abs(v)
+    return call_builtin(ex, BI('abs'), a, k)
+
+
+@ext('numpy.cumsum')
+def _np_cumsum(ex, a, k):
+    v = a[0]
+    if isinstance(v, NP.NPArr):
+        return NP.cumsum(ex, v)
+    raise OutOfSubset('np.cumsum of %s' % type(v).__name__)
+
+
+@ext('numpy.argmax')
+def _np_argmax(ex, a, k):
+    v = a[0]
+    if isinstance(v, NP.NPArr):
+        return NP.argmax_bool(ex, v)
+    raise OutOfSubset('np.argmax of %s' % type(v).__name__)
